@@ -413,6 +413,85 @@ def alias_probe(rng, uid, stream):
     decls = (f'class Cfg_{u}:\n  def __init__( s, k ): s.k = k\n' +
              _inner(f'Inner_{u}', 's.in_ + k', ', cfg', '    k = cfg.k\n'))
     src, expect = _two(u, decls, f'Inner_{u}( Cfg_{u}( {k1} ) )', f'Inner_{u}( Cfg_{u}( {k2} ) )'), 'nondet'
+  elif stream == 'set-param-different-values':
+    # a construct argument given through top.set_param(...): it is part of the component's parameters
+    a1, a2 = rng.sample([1, 2, 3, 5, 7, 11], 2)
+    nb = rng.choice([4, 8, 16])
+    decls = (f'class Inc_{u}( Component ):\n  def construct( s, nbits={nb}, amt={a1} ):\n'
+             f'    s.in_ = InPort( nbits ); s.out = OutPort( nbits )\n'
+             f'    @update\n    def up_inc():\n      s.out @= s.in_ + amt\n')
+    how = rng.choice(['b', 'both', 'kw'])
+    src = (f'from pymtl3 import *\n{decls}\n'
+           f'class Top_{u}( Component ):\n  def construct( s ):\n'
+           f'    s.in_ = InPort( {nb} ); s.o1 = OutPort( {nb} ); s.o2 = OutPort( {nb} )\n'
+           f'    s.a = Inc_{u}(' + (f' amt={a1} ' if how == 'kw' else '') + f'); s.b = Inc_{u}()\n'
+           f'    s.a.in_ //= s.in_; s.b.in_ //= s.in_\n    s.a.out //= s.o1; s.b.out //= s.o2\n'
+           f'def make_top():\n  top = Top_{u}()\n  top.set_param( "top.b.construct", amt={a2} )\n' +
+           (f'  top.set_param( "top.a.construct", nbits={nb} )\n' if how == 'both' else '') +
+           f'  return top\n')
+    expect = 'clean'
+  elif stream == 'bitstruct-subclass':
+    # a bitstruct deriving from another bitstruct, both used in one design, the base converted first
+    w1, w2 = rng.choice([4, 8]), rng.choice([8, 16])
+    first, second = ('Hdr', 'Msg')
+    decls = (f'@bitstruct\nclass Hdr_{u}:\n  opaque: Bits{w1}\n\n@bitstruct\nclass Msg_{u}( Hdr_{u} ):\n  addr: Bits{w2}\n  data: Bits8\n\n'
+             f'class Reg_{u}( Component ):\n  def construct( s, Type ):\n    s.in_ = InPort( Type ); s.out = OutPort( Type )\n'
+             f'    @update_ff\n    def up():\n      s.out <<= s.in_\n')
+    src = (f'from pymtl3 import *\n{decls}\n'
+           f'class Top_{u}( Component ):\n  def construct( s ):\n'
+           f'    s.hdr_in = InPort( Hdr_{u} ); s.hdr_out = OutPort( Hdr_{u} ); s.msg_in = InPort( Msg_{u} ); s.msg_out = OutPort( Msg_{u} )\n'
+           f'    s.hreg = Reg_{u}( Hdr_{u} ); s.mreg = Reg_{u}( Msg_{u} )\n'
+           f'    s.hreg.in_ //= s.hdr_in; s.hreg.out //= s.hdr_out; s.mreg.in_ //= s.msg_in; s.mreg.out //= s.msg_out\n'
+           f'def make_top():\n  return Top_{u}()\n')
+    expect = 'clean'
+  elif stream == 'nested-collision-under-same-named-parents':
+    # two factory classes sharing __name__, each handed as a type parameter to a wrapper: the wrappers share a module
+    # name (and text), the collision sits one level below them; the translator has to refuse (or keep them apart)
+    decls = (f'def mk( k ):\n  class Inner_{u}( Component ):\n    def construct( s ):\n'
+             f'      s.in_ = InPort( Bits8 ); s.out = OutPort( Bits8 )\n'
+             f'      @update\n      def up():\n        s.out @= s.in_ + k\n  return Inner_{u}\n'
+             f'A = mk( {k1} ); B = mk( {k2} )\n'
+             f'class Wrap_{u}( Component ):\n  def construct( s, T ):\n    s.in_ = InPort( Bits8 ); s.out = OutPort( Bits8 )\n'
+             f'    s.inner = T()\n    s.inner.in_ //= s.in_; s.inner.out //= s.out\n')
+    src, expect = _two(u, decls, f'Wrap_{u}( A )', f'Wrap_{u}( B )'), 'alias'
+  elif stream == 'newline-param':
+    # a string parameter that still carries its line terminator
+    word = rng.choice(['wide', 'fast', 'x', 'mode_a'])
+    tail = rng.choice(['\\n', '\\n', '\\r\\n', '\\t'])
+    decls = (f'class Lane_{u}( Component ):\n  def construct( s, kind ):\n    k = {k1} if kind == "{word}" else {k2}\n'
+             f'    s.in_ = InPort( Bits8 ); s.out = OutPort( Bits8 )\n'
+             f'    @update\n    def up():\n      s.out @= s.in_ + k\n')
+    src, expect = _two(u, decls, f'Lane_{u}( "{word}" )', f'Lane_{u}( "{word}{tail}" )'), 'clean'
+  elif stream == 'hash-equal-params':
+    # parameter values that differ but have equal hash() in CPython
+    pa, pb = rng.choice([('-1', '-2'), ('-2', '-1'), ('0', '2**61-1'), ('1', '2**61'), ('2**61', '1'), ('1', 'True'), ('1.0', '1'), ('True', '1.0')])
+    decls = _inner(f'Inner_{u}', 's.in_ + k', ', p', '    k = ( len( str( p ) ) * 7 + int( p ) % 5 ) % 100\n')
+    src, expect = _two(u, decls, f'Inner_{u}( {pa} )', f'Inner_{u}( {pb} )'), 'clean'
+  elif stream == 'placeholder-child-explicit-name':
+    # a Verilog placeholder as a sub-component that also carries explicit_module_name (SystemVerilog backend only)
+    vname = f'VPassThru_{u}'
+    vsrc = (f'module {vname}\n(\n  input  logic        clk,\n  input  logic        reset,\n'
+            f'  input  logic [7:0]  in_,\n  output logic [7:0]  out\n);\n  assign out = in_;\nendmodule\n')
+    explicit = rng.choice([True, True, False])
+    src = (f'import os\nfrom pymtl3 import *\n'
+           f'from pymtl3.passes.backends.verilog import VerilogPlaceholder, VerilogPlaceholderPass, VerilogTranslationPass\n'
+           f'HERE = os.path.dirname( os.path.abspath( __file__ ) )\n'
+           f'class {vname}( VerilogPlaceholder, Component ):\n  def construct( s ):\n'
+           f'    s.in_ = InPort( Bits8 ); s.out = OutPort( Bits8 )\n'
+           f'    s.set_metadata( VerilogPlaceholderPass.src_file, os.path.join( HERE, "{vname}.v" ) )\n'
+           f'    s.set_metadata( VerilogPlaceholderPass.top_module, "{vname}" )\n'
+           + _inner(f'Inc_{u}', f's.in_ + {k1}') +
+           f'class Top_{u}( Component ):\n  def construct( s ):\n'
+           f'    s.in_ = InPort( Bits8 ); s.out = OutPort( Bits8 )\n'
+           f'    s.pt = {vname}(); s.inc = Inc_{u}()\n'
+           f'    s.pt.in_ //= s.in_; s.inc.in_ //= s.pt.out; s.out //= s.inc.out\n'
+           f'def make_top():\n  return Top_{u}()\n'
+           f'def pre_translate( top, backend ):\n'
+           + (f'  top.pt.set_metadata( VerilogTranslationPass.explicit_module_name, "MyPassThru_{u}" )\n' if explicit else '') +
+           f'  top.apply( VerilogPlaceholderPass() )\n')
+    return {'uid': f'p{uid}', 'kind': 'probe', 'stream': stream, 'expect': 'clean', 'module': f'c13_p{uid}', 'source': src,
+            'extra_modules': [], 'extra_files': [(f'{vname}.v', vsrc)], 'backends': ['sv'], 'model': False,
+            'features': ['probe:' + stream]}
   else:
     raise ValueError(stream)
   return {'uid': f'p{uid}', 'kind': 'probe', 'stream': stream, 'expect': expect, 'module': f'c13_p{uid}',
@@ -423,6 +502,8 @@ ALIAS_STREAMS = [
   'factory-same-name-same-body', 'param-image-type-dependent', 'param-image-type-independent',
   'type-vs-struct-named-like-it', 'long-params', 'special-char-params', 'non-identifier-params',
   'struct-same-name-different-fields', 'object-repr-param',
+  'set-param-different-values', 'bitstruct-subclass', 'nested-collision-under-same-named-parents', 'newline-param',
+  'hash-equal-params', 'placeholder-child-explicit-name',
 ]
 
 def write_design(workdir, d):
@@ -432,4 +513,7 @@ def write_design(workdir, d):
   for name, src in [(d['module'], d['source'])] + list(d.get('extra_modules', [])):
     with open(os.path.join(dd, name + '.py'), 'w') as f:
       f.write(src)
+  for name, text in d.get('extra_files', []):
+    with open(os.path.join(dd, name), 'w') as f:
+      f.write(text)
   return dd
